@@ -61,6 +61,7 @@ def spectrum(rng, d, pattern):
 def required_cells(tier):
     return {"bath:rotated-degenerate": 20, "bath_invariant": 200,
             "method:tempo": 3, "method:pt": 3, "method:meanfield": 2,
+            "meanfield:two-systems": 2,
             "cov:degenerate": 3}
 
 
@@ -179,6 +180,7 @@ def run_cov(case):
     oper_r = rot(oper)
     oper_r = (oper_r + oper_r.conj().T) / 2
     fields = None
+    extra_sys, cells_extra = [], []
     if method in ("tempo", "pt"):
         h = gen.rand_herm(rng, d, 0.7)
         g = [float(rng.uniform(0.05, 0.3))]
@@ -194,21 +196,52 @@ def run_cov(case):
             s_a, rho0, dt=dt, num_steps=nsteps, start_time=start,
             progress_type="silent").states)
     else:
-        mf = lib.MeanFieldModel(rng, [d])
+        # one or two systems; the second has its own dimension, coupling
+        # operator (not diagonal in a common basis) and its own rotation
+        two = bool((i // 3) % 2)
+        dims = [d, 2 if d == 3 else 3] if two else [d]
+        if quick and two:
+            dims = [d, 2]
+        mf = lib.MeanFieldModel(rng, dims)
+        opers, vs, rhos = [oper], [v], [rho0]
+        for dd in dims[1:]:
+            o2 = spectrum(rng, dd, "distinct")
+            o2, _, sc2 = lib.guard_coupling(p, o2, dt, nsteps, kmax, tau, rng)
+            scale = max(scale, sc2)
+            w2 = gen.haar_unitary(rng, dd)
+            op2 = w2 @ np.diag(o2) @ w2.conj().T
+            opers.append((op2 + op2.conj().T) / 2)
+            vs.append(gen.haar_unitary(rng, dd))
+            rhos.append(gen.rand_state(rng, dd))
         sys_a, _ = mf.build()
-        sys_b, _ = mf.build(vs=[v])
+        sys_b, _ = mf.build(vs=vs)
+
+        def rotk(k, a):
+            return vs[k] @ a @ vs[k].conj().T
+        opers_r = [rotk(k, o_) for k, o_ in enumerate(opers)]
+        opers_r = [(o_ + o_.conj().T) / 2 for o_ in opers_r]
         a0 = 0.3 + 0.2j
         end = lib.end_time(start, dt, nsteps)
-        ta = oqupy.MeanFieldTempo(sys_a, [oqupy.Bath(oper, corr)], params,
-                                  [rho0], a0, start, unique=unique)
-        tb = oqupy.MeanFieldTempo(sys_b, [oqupy.Bath(oper_r, corr)], params,
-                                  [rot(rho0)], a0, start, unique=unique)
+        ta = oqupy.MeanFieldTempo(
+            sys_a, [oqupy.Bath(o_, corr) for o_ in opers], params, rhos, a0,
+            start, unique=unique)
+        tb = oqupy.MeanFieldTempo(
+            sys_b, [oqupy.Bath(o_, corr) for o_ in opers_r], params,
+            [rotk(k, r) for k, r in enumerate(rhos)], a0, start,
+            unique=unique)
         da = ta.compute(end, progress_type="silent")
         db = tb.compute(end, progress_type="silent")
         sa = np.array(da.system_dynamics[0].states)
         sb = np.array(db.system_dynamics[0].states)
         fields = (np.array(da.fields), np.array(db.fields))
         free = None
+        extra_sys = []
+        for k in range(1, len(dims)):
+            xa = np.array(da.system_dynamics[k].states)
+            xb = np.array(db.system_dynamics[k].states)
+            extra_sys.append((k, xa, xb))
+        if two:
+            cells_extra.append("meanfield:two-systems")
     violations = list(rec.violations)
     bound = C_BOUND * epsrel * scale
     err = float("nan")
@@ -234,10 +267,23 @@ def run_cov(case):
                 violations.append({"what": f"field differs by {fe:.3e}",
                                    "mechanism": "covariance-field",
                                    "detail": {}})
+    for (k, xa, xb) in extra_sys:
+        if xa.shape != xb.shape:
+            violations.append({"what": f"system {k}: lengths differ",
+                               "mechanism": "length", "detail": {}})
+            continue
+        expk = np.array([vs[k] @ r @ vs[k].conj().T for r in xa])
+        ek = float(np.abs(xb - expk).max())
+        err = max(err, ek) if err == err else ek
+        if not ek <= bound:
+            violations.append({
+                "what": f"meanfield: system {k} of the rotated simulation "
+                        f"differs from V rho V^dag by {ek:.3e} > {bound:.2e}",
+                "mechanism": "covariance", "detail": {}})
     effect = float(np.abs(sa - free).max()) if free is not None and \
         free.shape == sa.shape else 1.0
     degenerate = len(set(np.round(o, 8))) < d
-    cells = ["method:" + method]
+    cells = ["method:" + method] + cells_extra
     if degenerate:
         cells.append("cov:degenerate")
     if unique:
